@@ -358,6 +358,20 @@ Proof.
   inversion H; subst; simpl. rewrite upd_same. auto.
 Qed.
 
+(** a genesis export / import round trip changes nothing: who was admin stays admin (also a renounced
+    "" admin and an admin that has no account), nobody else becomes one *)
+Lemma reimport_identity blocked s : deliver blocked s Reimport = (s, true).
+Proof. reflexivity. Qed.
+
+Lemma reimport_keeps_authority blocked s sender d :
+  admins s d <> Some sender ->
+  let s' := fst (deliver blocked s Reimport) in
+  (forall dv amt t, step blocked s' (Mint sender d dv amt t) = None) /\
+  (forall dv amt t, step blocked s' (Burn sender d dv amt t) = None) /\
+  (forall n nv, step blocked s' (ChangeAdmin sender d n nv) = None) /\
+  (forall mv, step blocked s' (SetMeta sender d mv) = None).
+Proof. intro H. simpl. apply not_admin_rejected. exact H. Qed.
+
 (* ------------------------------------------------------------------ transactions of several messages *)
 
 Lemma deliver_tx_single blocked s o : deliver_tx blocked s [o] = deliver blocked s o.
@@ -475,6 +489,7 @@ Proof. intro H. apply in_map_iff in H as (x & Hx & Hin). inversion Hx; subst. au
 (** the five per-message clauses of [step_P] (everything except the sum over tracked accounts) *)
 Definition step_core (strict : bool) (blocked : list string) (prev : snap) (o : op) (ok : bool) (cur : snap) : Prop :=
   (ok = false -> cur = prev) /\
+  (o = Reimport -> cur = prev) /\
   (ok = true -> authority_ok prev cur o) /\
   (forall d v', In (d, v') (sn_supply cur) ->
      exists v, lookup d (sn_supply prev) = Some v /\ (v' <> v -> ok = true /\ supply_change_ok strict prev o d v v')) /\
@@ -497,13 +512,14 @@ Lemma model_step_core blocked ds bs s o :
   step_core false blocked (snap_keys ds bs s) o (snd (deliver blocked s o)) (snap_keys ds bs (fst (deliver blocked s o))).
 Proof.
   intros Hi Htr. unfold deliver. destruct (step blocked s o) as [s'|] eqn:E; simpl.
-  2:{ unfold step_core. split; [auto|]. split; [discriminate|]. split; [|split; [|split; [|]]].
+  2:{ unfold step_core. split; [auto|]. split; [auto|]. split; [discriminate|]. split; [|split; [|split; [|]]].
       - intros d v' Hin. apply in_map_key in Hin as [Hin ->]. exists (supply s d). split; [apply (lookup_map (supply s)); auto | congruence].
       - intros d a' Hin. apply in_map_key in Hin as [Hin ->]. exists (admins s d). split; [apply (lookup_map (admins s)); auto | congruence].
       - intros; discriminate.
       - intros acct d b' Hin. apply in_map_iff in Hin as ([x y] & Hx & Hin). simpl in Hx. inversion Hx; subst.
         exists (bal s acct d). split; [apply (lookup2_map (bal s)); auto | congruence]. }
-  unfold step_core. split; [discriminate|]. split; [|split; [|split; [|split]]].
+  unfold step_core. split; [discriminate|]. split; [|split; [|split; [|split; [|split]]]].
+  - intro Ho. subst o. simpl in E. inversion E; subst. reflexivity.
   - intros _. pose proof (step_authority _ _ _ _ E) as Ha.
     destruct o; simpl in *; auto;
       rewrite ?(lookup_map (admins s)), ?(lookup_map (admins s')) by auto;
